@@ -10,7 +10,13 @@ use std::sync::atomic::{AtomicBool, Ordering};
 use std::sync::{Arc, Mutex};
 use std::time::Instant;
 
+/// Default location of the verification tree; `verif_root()` honours the VERIF_ROOT variable the
+/// `check` wrapper exports (so a copy of the tree elsewhere reads its own known_findings.json).
 pub const VERIF_ROOT: &str = "/verif";
+
+pub fn verif_root() -> String {
+  std::env::var("VERIF_ROOT").unwrap_or_else(|_| VERIF_ROOT.to_string())
+}
 
 #[derive(Clone, Copy, PartialEq, Eq, Debug)]
 pub enum Tier {
@@ -101,7 +107,7 @@ impl KnownFinding {
 }
 
 pub fn load_known_findings() -> Vec<KnownFinding> {
-  let path = format!("{}/known_findings.json", VERIF_ROOT);
+  let path = format!("{}/known_findings.json", verif_root());
   match std::fs::read_to_string(&path) {
     Ok(s) => serde_json::from_str::<Vec<KnownFinding>>(&s).unwrap_or_else(|e| {
       eprintln!("cannot parse {}: {}", path, e);
@@ -303,7 +309,7 @@ impl Run {
     // not overwrite the evidence that /verif itself produced)
     let dir = match std::env::var("VERIF_OUT_DIR") {
       Ok(d) => format!("{}/replays/{}", d, self.id),
-      Err(_) => format!("{}/replays/{}", VERIF_ROOT, self.id),
+      Err(_) => format!("{}/replays/{}", verif_root(), self.id),
     };
     let _ = std::fs::create_dir_all(&dir);
     let body = json!({"property": self.id, "sub": sub, "violation": v, "case": case, "seed": self.seed, "tier": self.tier.name()});
@@ -483,7 +489,7 @@ impl Run {
     });
     let dir = match std::env::var("VERIF_OUT_DIR") {
       Ok(d) => format!("{}/evidence", d),
-      Err(_) => format!("{}/evidence", VERIF_ROOT),
+      Err(_) => format!("{}/evidence", verif_root()),
     };
     let _ = std::fs::create_dir_all(&dir);
     let path = format!("{}/{}.json", dir, self.id);
